@@ -98,7 +98,11 @@ def battery(seed, outp):
     # compile the jitted functions DEFINED in this module first: they refer to the kernels as module globals and
     # could not be typed once those names are rebound to the logging wrappers
     _S = np.array([[0, 0, 1, 0, 0, 0.0]]).T
-    fhp.IKinSpaceConstrained(_S.copy(), np.eye(4), np.eye(4), np.array([0.1]), 1e-4, 1e-5, np.array([-3.0]), np.array([3.0]), 5)
+    try:        # (itself a call of a public compiled kernel on a one-joint chain: an index error here is a finding, not a crash)
+        fhp.IKinSpaceConstrained(_S.copy(), np.eye(4), np.eye(4), np.array([0.1]), 1e-4, 1e-5, np.array([-3.0]), np.array([3.0]), 5)
+        results.append({"name": "fhp.IKinSpaceConstrained(1 joint)", "raised": None, "value": []})
+    except Exception as e:
+        results.append({"name": "fhp.IKinSpaceConstrained(1 joint)", "raised": type(e).__name__ + ": " + str(e)[:160], "value": []})
     for k in KERNELS:
         if hasattr(fhp, k):
             wrap(fhp, k)
